@@ -17,7 +17,7 @@ LEVEL = "model_checking"
 
 def run(ctx):
     ctx.build(["c14"])
-    paths, rs = xcommon.explore(ctx, "c14", "X_C14", 150, 3000, lifted=True)
+    paths, rs = xcommon.explore(ctx, "c14", "X_C14", 300, 3000, lifted=True)
     killed = kept = 0
     outc = {}
     for p in paths:
